@@ -157,6 +157,9 @@ class Voc:
             FA([b], self.truthy(self.B2V(b)) == b, patterns=[self.truthy(self.B2V(b))]),
             FA([i], self.truthy(self.I2V(i)) == (i != 0), patterns=[self.truthy(self.I2V(i))]),
             FA([st], self.truthy(self.S2V(st)) == (z3.Length(st) > 0), patterns=[self.truthy(self.S2V(st))]),
+            FA([x], z3.Implies(self.ty(x) == self.cls["str"], self.truthy(x) == (z3.Length(self.V2S(x)) > 0)), patterns=[self.truthy(x)]),
+            FA([x], z3.Implies(self.ty(x) == self.cls["bool"], self.truthy(x) == self.V2B(x)), patterns=[self.truthy(x)]),
+            FA([x], z3.Implies(self.ty(x) == self.cls["int"], self.truthy(x) == (self.V2I(x) != 0)), patterns=[self.truthy(x)]),
             FA([x], z3.Implies(z3.Or(self.ty(x) == self.cls["list"], self.ty(x) == self.cls["tuple"]),
                                self.truthy(x) == (self.slen(x) > 0)), patterns=[self.truthy(x)]),
             FA([x], z3.Implies(z3.Or(self.ty(x) == self.cls["set"], self.ty(x) == self.cls["frozenset"]),
